@@ -237,3 +237,61 @@ func genSubsecond(r *rand.Rand, tier string, emit func([]string)) {
 	})
 	emit(ops)
 }
+
+// Edge values of the pool fields, written through the real PoolManager.AddPool -> Loader.AddPool: lease time 0,
+// below one second, one second, above 2^31 s and 2^32-1 s; no / one / two DNS servers; gateway 0.0.0.0; a /30.
+// (A /0 or /1 pool cannot be built: dhcp.NewPool materialises every host address; prefix lengths 0, 31, 32, 33 and
+// 255 reach the program through raw ip_pools bytes in genStructured.)  Each pool serves one client: DISCOVER and
+// REQUEST through the slow path, then the fast path and the slow path answer the same DISCOVER and the same
+// renewal REQUEST (reply-differs compares lease time, mask, router, DNS, server id field by field), and the map
+// delta of `addpool` is compared with the model's ip_pools bytes.
+func genPoolEdges(r *rand.Rand, tier string, emit func([]string)) {
+	leases := []string{"0", "500ms", "999ms", "1", "1500ms", "2147483653", "4294967295"}
+	type shape struct {
+		plen    int
+		gw, dns string
+	}
+	shapes := []shape{{24, "0a000101", "-"}, {24, "0a000101", "08080808"}, {30, "0a000101", "08080808,08080404"},
+		{24, "00000000", "08080808"}, {28, "0a00010e", "-"}}
+	for li, lease := range leases {
+		for si, sh := range shapes {
+			if tier != "thorough" && (li+si)%2 == 1 && lease != "0" {
+				continue
+			}
+			var ops []string
+			sr := rand.New(rand.NewSource(r.Int63()))
+			inBubble(func() {
+				g := &sgen{r: sr, run: comp{}.NewRun().(*run)}
+				defer g.run.Close()
+				m1 := [6]byte{2, 0, 0, 0, 0, 1}
+				g.do("new srv 0a000101")
+				if si != 3 || li%2 == 0 { // also with server_config unset when the gateway is 0.0.0.0
+					g.do("setcfg 0200000000fe 0a000101 2")
+				}
+				g.do(fmt.Sprintf("addpool 1 0a000100/%d %s %s %s %d %d", sh.plen, sh.gw, sh.dns, lease, 100*si, 1+si%3))
+				var offer uint32
+				slow := func(p fp) string { return g.do("slow " + hex.EncodeToString(p.bootp())) }
+				if yi, mt := replyInfo(slow(exhFrame(m1, 1, 0, nil, false, false))); mt == 2 {
+					offer = yi
+				}
+				slow(exhFrame(m1, 3, offer, nil, false, false))
+				both := func(p fp, clk string) {
+					g.do(runOp(p.frame(), clk))
+					slow(p)
+				}
+				// on the since-boot clock (alive for the program whatever the lease time) and on the slow path's clock
+				both(exhFrame(m1, 1, 0, nil, false, false), "up100")
+				both(exhFrame(m1, 3, offer, nil, false, false), "up100")
+				both(exhFrame(m1, 1, 0, nil, false, false), "unix")
+				g.do("tickms 600")
+				both(exhFrame(m1, 3, offer, nil, false, false), "unix")
+				g.do("tick 1")
+				both(exhFrame(m1, 1, 0, nil, false, false), "unix")
+				g.do("cleanup")
+				g.do(runOp(exhFrame(m1, 1, 0, nil, false, false).frame(), "up100"))
+				ops = g.ops
+			})
+			emit(ops)
+		}
+	}
+}
